@@ -751,6 +751,10 @@ def _norm(a, ord=None, axis=None, **kw):
         ctx().side.append(z3.And(n >= 0, n * n == lift(x).cast('f').t))
         out[i] = SReal(n)
     return SArray(out, 'f')
+@handles(numpy.outer)
+def _outer(a, b, out=None):
+    a, b = SArray.wrap(a), SArray.wrap(b)
+    return a.ravel()[:, numpy.newaxis] * b.ravel()[numpy.newaxis, :]
 @handles(numpy.may_share_memory)
 def _may_share(a, b, **kw):
     return numpy.may_share_memory(a.a if isinstance(a, SArray) else a, b.a if isinstance(b, SArray) else b)
